@@ -125,8 +125,17 @@ func mwho(id string) string {
 type mintRes struct {
 	outs  []string
 	ops   []string // model ops (signature bits and fee receiver are recorded from the run)
-	fail  string
+	fails []string // distinct violated statements, in order of appearance (the known one must not hide others)
 	kinds map[string]int
+}
+
+func (r *mintRes) has(k string) bool {
+	for _, f := range r.fails {
+		if f == k {
+			return true
+		}
+	}
+	return false
 }
 
 func poolTotal(m util.MerklePatriciaTrieI, id string) (exists bool, stake, credited uint64) {
@@ -256,8 +265,8 @@ func runMint(h mintHist) mintRes {
 	}
 	minted := map[int64]bool{}
 	setFail := func(k string) {
-		if res.fail == "" {
-			res.fail = k
+		if !res.has(k) {
+			res.fails = append(res.fails, k)
 		}
 	}
 	exec := func(m util.MerklePatriciaTrieI, i int, sender, fn string, input []byte, seed int64) (string, error, [][3]string) {
@@ -533,8 +542,8 @@ func runMint(h mintHist) mintRes {
 					}
 					if rejected {
 						res.kinds["binding-probe-minted-with-invalid-signature"]++
-						if res.fail == "" {
-							res.fail = "invalid-signature-accepted"
+						if !res.has("invalid-signature-accepted") {
+							res.fails = append(res.fails, "invalid-signature-accepted")
 						}
 					} else {
 						setFail("signature-does-not-bind-" + f)
@@ -699,6 +708,7 @@ func mainMint(o vh.Opts) {
 		"malformed/empty payload, more entries than authorizers, deleted authorizer; percent_authorizers in {0, .25, .34, .5, .51, .66, .7, 1, 1.5}. After every successful mint four probes re-submit " +
 		"the signatures with the txn id / amount / nonce / receiver changed. non-trivial = a mint succeeded, a mint was refused and a fee was credited; distinct by full history"
 	cf := &vh.CasesFile{Imports: []string{"Base.Corr", "Model.ZcnMint", "Corr.ZcnMint"}, CaseType: "zm_case", CheckFn: "zm_check"}
+	reported := map[string]bool{}
 	handle := func(h mintHist) {
 		res := runMint(h)
 		for k, n := range res.kinds {
@@ -708,9 +718,19 @@ func mainMint(o vh.Opts) {
 		rep.Case(string(b), res.kinds["mint-ok"] > 0 && res.kinds["mint-refused"] > 0 && res.kinds["mint-ok-fee-credited"] > 0, h)
 		cf.Add(mintCase(h, res))
 		rep.CaseInputs = append(rep.CaseInputs, h)
-		if res.fail != "" {
-			keep := vh.ShrinkIdx(len(h.Ops), func(keep []int) bool { return runMint(subMint(h, keep)).fail == res.fail })
-			rep.Violate("C18:"+res.fail, "bridge mint: "+res.fail, subMint(h, keep))
+		for _, f := range res.fails {
+			if reported[f] {
+				continue
+			}
+			reported[f] = true
+			f := f
+			keep := vh.ShrinkIdx(len(h.Ops), func(keep []int) bool { r2 := runMint(subMint(h, keep)); return r2.has(f) })
+			desc := "bridge mint: " + f
+			if f == "invalid-signature-accepted" {
+				desc = "a mint succeeded although an entry's signature does not verify: verifySignatures returns errors.Wrap(err, ...) with err == nil " +
+					"when Verify answers (false, nil), which is nil, and stops checking the remaining entries"
+			}
+			rep.Violate("C18:"+f, desc, subMint(h, keep))
 		}
 	}
 	finish := func() {
